@@ -11,6 +11,9 @@ func init() {
 	vxRegister("H01filter", H01filter)
 	vxRegister("H01filterQ", H01filterQ)
 	vxRegister("H01filterS", H01filterS)
+	vxRegister("H01filterS2", H01filterS2)
+	vxRegister("H01filter4", H01filter4)
+	vxRegister("H01filter4Q", H01filter4Q)
 }
 
 // vxRefFilter is the reference model of the overlap filter at the end of match(): candidates sorted by
@@ -91,14 +94,26 @@ func H01filterQ() { h01filter([]string{"A", "B"}, false) }
 func H01filterS() { h01filter([]string{"A", "B", "C", "D"}, true) }
 func H01filterS2() { h01filter([]string{"A", "B"}, true) }
 
+// H01filter4: four candidates that are all present, one token per line (4 lines), every range and
+// confidence {0.8,1.0} enumerated (the float token-weight comparisons make the symbolic variant
+// H01filterS cost one cvc5 query per comparison; it did not finish in 15 minutes): the smallest world in which a candidate can be rejected after proposing a withdrawal
+// and a later one kept (withdrawal proposals must die with the rejected candidate).
+func H01filter4() { h01filterN([]string{"A", "B", "C", "D"}, false, []int{1, 2, 3, 4}, true) }
+
+// H01filter4Q: the same world on three lines with every range and confidence {0.8,1.0} enumerated.
+func H01filter4Q() { h01filterN([]string{"A", "B", "C", "D"}, false, []int{1, 2, 3}, true) }
+
 func h01filter(names []string, symbolic bool) {
+	h01filterN(names, symbolic, []int{1, 1, 2, 3, 3, 4}, false)
+}
+
+func h01filterN(names []string, symbolic bool, lineOf []int, allPresent bool) {
 	const T = 0.8
 	c := NewClassifier(T)
 	for _, n := range names {
 		c.AddContent("License", n, "v.txt", []byte("w1 w2 w3 w4 w5 w6 w7 w8 w9 w10 w11 w12"))
 	}
-	const N = 6 // input: 6 words on lines 1,1,2,3,3,4
-	lineOf := []int{1, 1, 2, 3, 3, 4}
+	N := len(lineOf) // input: one word per entry, on these lines
 	confs := []float64{0.8, 1.0}
 	type cand struct {
 		start, end int
@@ -107,7 +122,7 @@ func h01filter(names []string, symbolic bool) {
 	want := map[string]cand{}
 	var cands []*Match
 	for _, n := range names {
-		if vxChoice(2) == 0 {
+		if !allPresent && vxChoice(2) == 0 {
 			continue // this document proposes nothing
 		}
 		var s, e int
